@@ -16,88 +16,29 @@ variable (sl : Nat → Nat)
 /-! ## (a) signature emission -/
 
 /-- **sig_roundtrip** (the provable part).  For every signature Python's grammar admits — any number of
-    positional-only, positional, keyword-only parameters, optional `*args`/`**kwargs`, any annotations and
-    initializers, defaults obeying the compiler's rule — in which no parameter outside the `/` prefix is
-    named `__x`: Python reads the emitted parameter list back as the same names, kinds and has-default flags. -/
+    positional-only, positional, keyword-only parameters, optional `*args`/`**kwargs`, any annotations,
+    defaults obeying the compiler's rule — in which no parameter outside the `/` prefix is named `__x` and
+    every initializer satisfies the hypotheses of (b): Python reads the emitted parameter list back as the
+    same names, kinds and has-default flags. -/
 theorem sig_roundtrip_partial (s : PySig) (hd : s.DefaultsOk) (hne : s.NoElide) (hg : s.GoodDefaults) :
-    parseItems (emitArgs sl false s.toMypy) = some s.summary := by
-  rw [emit_shape sl s hne]
-  have hre : s.shape sl =
-      (itemsFrom sl 0 s.aPo ++ (if s.po.isEmpty then [] else [Item.slash]) ++ itemsFrom sl s.po.length s.aPp) ++
-      (itemsFrom sl (s.po.length + s.pp.length) s.aVa ++ s.starItems ++
-        itemsFrom sl (s.po.length + s.pp.length + s.aVa.length) s.aKw ++
-        itemsFrom sl (s.po.length + s.pp.length + s.aVa.length + s.kw.length) s.aKa) := by
-    simp [PySig.shape, List.append_assoc]
-  rw [hre]
-  unfold parseItems
-  rw [run_append, run_positional sl s hd hg]
-  simp only [Option.bind_some]
-  obtain ⟨st', hr, hn, ha⟩ := run_tail sl s hg (s.po.length + s.pp.length)
-    (s.po.length + s.pp.length + s.aVa.length) (s.po.length + s.pp.length + s.aVa.length + s.kw.length)
-    (if s.po.isEmpty then .pre else .post) ((s.po ++ s.pp).any PParam.hasD)
-    (s.po.map (fun p => (p.name, PKind.posOnly, p.hasD)) ++ s.pp.map (fun p => (p.name, PKind.pos, p.hasD)))
-    (by cases s.po <;> simp)
-  rw [hr]
-  simp [hn, ha, PySig.summary]
+    parseItems (emitArgs sl false s.toMypy) = some s.summary :=
+  roundtrip_E sl elide s hd hne hg
 
-/-- Python's `parameters` production, as a predicate on the emitted items:
-    `po* ["/"] pp* ["*args" | "*" kw+ | kw = ε] kw* ["**kwargs"]` with the compiler's rule on defaults. -/
-def GrammarShape (items : List Item) : Prop :=
-  ∃ (po slash pp star kw ka : List Item),
-    items = po ++ slash ++ pp ++ star ++ kw ++ ka ∧
-    (∀ x ∈ po ++ pp ++ kw, x.isParam = true) ∧
-    ((slash = [] ∧ po = []) ∨ (slash = [Item.slash] ∧ po ≠ [])) ∧                 -- `/` only after ≥ 1 positional-only
-    ((star = [] ∧ kw = []) ∨ (∃ n a, star = [Item.vararg n a]) ∨ (star = [Item.bareStar] ∧ kw ≠ [])) ∧  -- at most one `*`
-    (ka = [] ∨ ∃ n a, ka = [Item.kwarg n a]) ∧                                      -- at most one `**`, last
-    mono false ((po ++ pp).map Item.hasD) = true                                    -- no non-default after default
-
-/-- **sig_valid**: the emitted parameter list is an instance of Python's grammar production — `/` only after
-    at least one positional-only parameter, at most one `*` (bare only when a keyword-only parameter
-    follows), at most one `**` and it is last, no non-default after a default among the positionals. -/
+/-- **sig_valid** (the provable part): the emitted parameter list is an instance of Python's grammar
+    production (`GrammarShape`) — `/` only after at least one positional-only parameter, at most one `*`
+    (bare only when a keyword-only parameter follows), at most one `**` and it is last, no non-default after
+    a default among the positionals. -/
 theorem sig_valid_partial (s : PySig) (hd : s.DefaultsOk) (hne : s.NoElide) :
-    GrammarShape (emitArgs sl false s.toMypy) := by
-  rw [emit_shape sl s hne]
-  have hpo : ∀ a ∈ s.aPo, a.kind = .pos ∨ a.kind = .named := by
-    intro a ha; simp only [PySig.aPo, List.mem_map] at ha; obtain ⟨p, _, rfl⟩ := ha; exact Or.inl rfl
-  have hpp : ∀ a ∈ s.aPp, a.kind = .pos ∨ a.kind = .named := by
-    intro a ha; simp only [PySig.aPp, List.mem_map] at ha; obtain ⟨p, _, rfl⟩ := ha; exact Or.inl rfl
-  have hkw : ∀ a ∈ s.aKw, a.kind = .pos ∨ a.kind = .named := by
-    intro a ha; simp only [PySig.aKw, List.mem_map] at ha; obtain ⟨p, _, rfl⟩ := ha; exact Or.inr rfl
-  obtain ⟨p1, d1⟩ := itemsFrom_params sl 0 s.aPo hpo
-  obtain ⟨p2, d2⟩ := itemsFrom_params sl s.po.length s.aPp hpp
-  obtain ⟨p3, _⟩ := itemsFrom_params sl (s.po.length + s.pp.length + s.aVa.length) s.aKw hkw
-  refine ⟨itemsFrom sl 0 s.aPo, if s.po.isEmpty then [] else [Item.slash], itemsFrom sl s.po.length s.aPp,
-    itemsFrom sl (s.po.length + s.pp.length) s.aVa ++ s.starItems,
-    itemsFrom sl (s.po.length + s.pp.length + s.aVa.length) s.aKw,
-    itemsFrom sl (s.po.length + s.pp.length + s.aVa.length + s.kw.length) s.aKa, ?_, ?_, ?_, ?_, ?_, ?_⟩
-  · simp [PySig.shape, List.append_assoc]
-  · intro x hx
-    simp only [List.mem_append] at hx
-    rcases hx with (hx | hx) | hx
-    · exact p1 x hx
-    · exact p2 x hx
-    · exact p3 x hx
-  · cases hq : s.po with
-    | nil => left; simp [PySig.aPo, hq, itemsFrom]
-    | cons p r => right; simp [PySig.aPo, hq, itemsFrom]
-  · cases hv : s.va with
-    | some v =>
-      right; left
-      obtain ⟨ann, he⟩ := argItem_star sl ((s.po.length + s.pp.length) == 0) (mkVArg .star v) rfl rfl
-      exact ⟨v.name, ann, by simp only [PySig.aVa, hv, Option.toList_some, List.map_cons, List.map_nil, itemsFrom, PySig.starItems, Option.isNone_some, Bool.false_and, Bool.false_eq_true, ↓reduceIte, List.append_nil]; exact congrArg (· :: []) he⟩
-    | none =>
-      cases hq : s.kw with
-      | nil => left; simp [PySig.aVa, PySig.aKw, hv, hq, itemsFrom, PySig.starItems]
-      | cons p r => right; right; simp [PySig.aVa, PySig.aKw, hv, hq, itemsFrom, PySig.starItems]
-  · cases hk : s.ka with
-    | none => left; simp [PySig.aKa, hk, itemsFrom]
-    | some v =>
-      right
-      obtain ⟨ann, he⟩ := argItem_star2 sl
-        ((s.po.length + s.pp.length + s.aVa.length + s.kw.length) == 0) (mkVArg .star2 v) rfl rfl
-      exact ⟨v.name, ann, by simp only [PySig.aKa, hk, Option.toList_some, List.map_cons, List.map_nil, itemsFrom]; exact congrArg (· :: []) he⟩
-  · rw [List.map_append, d1, d2, aPo_hasD, aPp_hasD, ← List.map_append]
-    exact hd
+    GrammarShape (emitArgs sl false s.toMypy) :=
+  valid_E sl elide s hd hne
+
+/-- **sig_roundtrip_magic**: for the methods of MAGIC_METHODS_POS_ARGS_ONLY (`__add__`, `__eq__`, …) the
+    `pos_only` flags are ignored, so the round trip holds whatever the parameter names are — provided the
+    source has no `/` (one in the source is dropped by design: mypy elides those names anyway). -/
+theorem sig_roundtrip_magic (s : PySig) (hpo : s.po = []) (hd : s.DefaultsOk) (hg : s.GoodDefaults) :
+    parseItems (emitArgs sl true s.toMypy) = some s.summary := by
+  rw [emit_magic, PySig.toMypy, toMypy_clearPO elide s hpo]
+  exact roundtrip_E sl (fun _ => false) s hd (by simp [PySig.NoElideE]) hg
 
 /-- corollary: Python accepts the emitted parameter list -/
 theorem sig_parses_partial (s : PySig) (hd : s.DefaultsOk) (hne : s.NoElide) (hg : s.GoodDefaults) :
